@@ -115,8 +115,9 @@ def run(check, prog):
     # object: no solver output may be remembered on the theory / module between
     # calculations (in-place rescaling of a remembered array compounds).  Shared
     # with C01.
-    from . import c01
+    from . import c01, c05
     c01.f5_state(check, prog)
+    c05.f2py_coordinate_roles(check, prog)
 
 
 def stops(check, prog, root):
